@@ -389,6 +389,34 @@ int main(int argc, char** argv)
         vf::violation("C16:xml:roundtrip", cs, vf::fmt("serialised text is rejected: line %d column %d: %s", ps.getErrorLine(), ps.getErrorColumn(), (const char*)ps.getErrorString()));
       else if(!same(back, root, why, "/r")) vf::violation("C16:xml:roundtrip", cs, "re-parsed tree differs: " + why);
     }
+    // decimal character references of every body length 1..10 (code points at each power of ten and each UTF-8 length boundary, with
+    // 0..3 leading zeros), as attribute value and as text: the parsed value is the UTF-8 encoding of the code point
+    static const unsigned cps[] = {9, 10, 13, 65, 99, 100, 127, 128, 999, 1000, 2047, 2048, 9999, 10000, 65533, 99999, 100000, 999999, 1000000, 1114111};
+    for(size_t c = 0; c < sizeof(cps) / sizeof(*cps); ++c) for(int zeros = 0; zeros < 4; ++zeros) for(int where = 0; where < 2; ++where)
+    {
+      if(!sh.take()) continue;
+      unsigned cp = cps[c];
+      std::string u;
+      if(cp < 0x80) u += (char)cp;
+      else if(cp < 0x800) { u += (char)(0xc0 | cp >> 6); u += (char)(0x80 | (cp & 0x3f)); }
+      else if(cp < 0x10000) { u += (char)(0xe0 | cp >> 12); u += (char)(0x80 | (cp >> 6 & 0x3f)); u += (char)(0x80 | (cp & 0x3f)); }
+      else { u += (char)(0xf0 | cp >> 18); u += (char)(0x80 | (cp >> 12 & 0x3f)); u += (char)(0x80 | (cp >> 6 & 0x3f)); u += (char)(0x80 | (cp & 0x3f)); }
+      std::string ref = "&#" + std::string(zeros, '0') + vf::fmt("%u", cp) + ";";
+      MNode root; root.name = "r";
+      std::string doc;
+      if(where == 0) { root.attrs.push_back(std::make_pair(std::string("v"), "x" + u + "y")); doc = "<r v=\"x" + ref + "y\"/>"; }
+      else { MNode x; x.isText = true; x.text = "x" + u + "y"; root.kids.push_back(x); doc = "<r>x" + ref + "y</r>"; }
+      std::string cs = "bytes reference doc='" + doc + "'";
+      vf::crumb("xml.bytes", sh.token(), cs);
+      vf::watchdog_arm(20000);
+      vf::Exact ex(doc, true);
+      Xml::Parser ps; Xml::Element back;
+      vf::hit("reference_documents"); vf::hit("distinct_nontrivial");
+      std::string why;
+      if(!ps.parse(String::fromCString(ex.p, doc.size()), back))
+        vf::violation("C16:xml:reference", cs, vf::fmt("document is rejected: line %d column %d: %s", ps.getErrorLine(), ps.getErrorColumn(), (const char*)ps.getErrorString()));
+      else if(!same(back, root, why, "/r")) vf::violation("C16:xml:reference", cs, "character reference decoded wrongly: " + why);
+    }
   }
   else if(mode == "sizes")
   {
